@@ -268,6 +268,7 @@ def run_check(pid: str, tier: str, seed: int, workers: int = 0) -> int:
         "rule": prop.RULE,
         "samples": merged["samples"][:8],
         "exhaustive": bool(getattr(prop, "EXHAUSTIVE", {}).get(tier, False)),
+        "exhaustively_enumerated_subspaces": getattr(prop, "EXHAUSTIVE_SUBSPACES", ""),
         "counters": {k: stats[k] for k in sorted(stats)},
         "lines_reached_in_anchors": reach_out,
         "violation_keys": {k: merged["vcount"][k] for k in sorted(merged["vcount"])},
